@@ -262,8 +262,15 @@ def _flag_udrain(wire_py: ast.Module) -> bool:
 
 
 def _fixed_sites(wire_py: ast.Module, client_py: ast.Module, types_py: ast.Module) -> None:
-    site = "_wire.py:_read_request"
-    fn = _func(wire_py, "_read_request", site)
+    # the request body is decoded in _read_request itself or in its helper _decode_request (same statements)
+    names = {n.name for n in ast.walk(wire_py) if isinstance(n, ast.FunctionDef)}
+    holder = "_decode_request" if "_decode_request" in names else "_read_request"
+    site = f"_wire.py:{holder}"
+    fn = _func(wire_py, holder, site)
+    if holder == "_decode_request":
+        outer = _func(wire_py, "_read_request", "_wire.py:_read_request")
+        if _count(outer, "_decode_request(batch, custom_metadata, external_config, shm, attach_shm)") < 1:
+            raise TranslationBroken("_wire.py:_read_request", "does not hand the request batch and the segment to _decode_request")
     _ordered(
         fn,
         [
